@@ -272,12 +272,12 @@ def _():
 
 
 @bounded("simple-font-documents-vs-oracle", props=["C06"],
-         bound="quick: 150 generated documents, Type1/TrueType/Type3 x {no Encoding, WinAnsi, MacRoman, dict with BaseEncoding+Differences} x ToUnicode for some codes x Widths/FirstChar/MissingWidth (incl. width 0) x Type3 FontMatrix; every shown code's text and advance compared; thorough: 3000")
+         bound="quick: 150 generated documents, Type1/TrueType/Type3 x {no Encoding, WinAnsi, MacRoman, dict with BaseEncoding+Differences} x ToUnicode for some codes x Widths/FirstChar/MissingWidth (incl. width 0) x Type3 FontMatrix; every shown code's text and advance compared; thorough: 20000")
 def _(tier, seed):
     import io, random
     from specs.pdfgen import build, Name, Ref, Stream
     rng = random.Random(seed + 66)
-    n = 150 if tier == "quick" else 3000
+    n = 150 if tier == "quick" else 20000
     interp = real_module("pdfminer.pdfinterp"); conv = real_module("pdfminer.converter"); layout = real_module("pdfminer.layout")
     PDFParser = real_module("pdfminer.pdfparser").PDFParser; PDFDocument = real_module("pdfminer.pdfdocument").PDFDocument
     PDFPage = real_module("pdfminer.pdfpage").PDFPage
